@@ -45,9 +45,20 @@ def key_classes(rng, nk):
     lw = rng.getrandbits(32)
     out.append(("same-low-word", [lw | (i << 32) for i in rng.sample(range(0, 1 << 20), nk)]))
     out.append(("same-low-word-as-NULL", [0] + [i << 32 for i in rng.sample(range(1, 1 << 20), nk - 1)]))
+    # the first and the last bucket (loops over the bucket array start and end there), and one key per bucket of a random stretch
+    b0 = [64, 165, 0xffffffffffffffdb, 0x7fff0000000000a5] + [64 + 101 * rng.randint(2, 10 ** 6) for _ in range(nk)]
+    out.append(("bucket-0", b0[:nk]))
+    b100 = [63, 164, 0x7fff000000000000 | 164] + [63 + 101 * rng.randint(2, 10 ** 6) for _ in range(nk)]
+    out.append(("bucket-100", b100[:nk]))
+    k0 = rng.randint(0, 10 ** 6)
+    out.append(("one-key-per-bucket", [k0 + rng.randint(0, 100 - nk) + i for i in range(nk)]))
     for name, ks in out:
         if len(set(ks)) != len(ks):
             raise Machinery("key class %s not distinct" % name)
+        if name == "bucket-0" and any(bucket(k) != 0 for k in ks):
+            raise Machinery("bucket-0 key class is wrong")
+        if name == "bucket-100" and any(bucket(k) != 100 for k in ks):
+            raise Machinery("bucket-100 key class is wrong")
     return out
 
 
